@@ -22,7 +22,11 @@ CLAIM = dict(
           "memory outside the view untouched), call by call and for whole histories on a view, INCLUDING calls whose "
           "transfer fails (the controller's read/write raises SCPError: the error propagates, the position does not "
           "move, a failed read delivers nothing, a failed write leaves exactly the bytes the machine stored); a slice covers exactly the sub-range Python's slice.indices names; "
-          "after close or free every I/O operation and every slicing raises OSError and no access is ever issued again. Tied to the "
+          "after close or free every I/O operation and every slicing raises OSError and no access is ever issued again; "
+          "a view is closed by close() and by leaving its with-block, normally OR through an exception (__exit__ = "
+          "close(), as io.BytesIO and real files do: exit_block_is_close, dead_after_block); with TruncationWarning "
+          "turned into an exception a call that would be truncated raises it, transfers nothing and moves nothing "
+          "(strict_refines_file). Tied to the "
           "code by exact correspondence of whole histories against a recording controller, with the Lean "
           "specification evaluated on every observed call of the implementation."),
     design="3/C13",
@@ -33,7 +37,9 @@ CLAIM = dict(
           "(@_if_not_closed): without it slicing a closed view returns a fresh open view (finding dead-view-sliced, "
           "kept as a decide witness). 'every operation fails' after close/free is claimed and proved for read, "
           "write, seek, tell, flush, address and slicing; __len__ and a repeated close() are not in the property's "
-          "list of operations (they touch no memory, the code does not guard them) and are left as they are. "
+          "list of operations (they touch no memory, the code does not guard them) and are left as they are; "
+          "likewise __enter__ on a closed view returns the view (io objects raise there): modelled as the code is, "
+          "every operation inside such a block fails, only tagged. "
           "Hardening checklist - not applicable to this property: nothing in scope is counted in 8 or 16 bits (no "
           "257 / 65,537 counters; lengths 65,537 and 70,000 and histories of 3,000 calls are run instead); nothing in "
           "scope returns a generator/iterator or a mutable result (read returns bytes, tell/len ints), so 'results "
@@ -54,7 +60,8 @@ THEOREMS = ["step_confined", "step_WF", "run_confined", "run_confined_alloc", "s
             "early_offset_update_breaks_failed_read", "read_back", "close_closes", "dead_after_close", "free_frees",
             "no_access_after_free", "orig_read_escapes_below", "orig_write_escapes_above", "fix_conservative",
             "orig_slice_of_closed_view_is_open", "getitem_fix_conservative", "failed_free_moves_nothing",
-            "absFileWin_eq", "seek_end_sign"]
+            "absFileWin_eq", "seek_end_sign", "exit_block_is_close", "dead_after_block", "enter_is_noop",
+            "stepS_cases", "strict_refines_file", "stepS_WF", "stepS_confined"]
 
 RULE = ("histories of 1-14 calls (seek with all three origins and offsets from -len-3 to len+4 biased to the edges, "
         "bad origin; read default / explicit counts incl. 0, negative and beyond the end; writes of 0-2*len bytes; "
@@ -83,7 +90,15 @@ RULE = ("histories of 1-14 calls (seek with all three origins and offsets from -
         "(thorough 1,200) sibling slices of one view, nested slices 1,100 (1,500) deep, views of 65,537 and 70,000 "
         "bytes, views of 2^32+5, 2^64 and 2^100 bytes with sparse memory (model comparison only: the whole-view "
         "content oracle is skipped there); NON-TERMINATION - every call runs under a CPU limit (2 s, 0.3 s after "
-        "three hangs): a call that does not return is reported as did-not-return (the model is total). A history is "
+        "three hangs): a call that does not return is reported as did-not-return (the model is total). WITH-BLOCKS "
+        "(6% of steps start one): __enter__ / body / __exit__ as separate calls, blocks of a view and nested blocks of "
+        "its slices (up to 3 levels), each level left normally, by the caller's exception or by an exception of the "
+        "view's own operation inside the block (TruncationWarning turned into an error by the warnings filter, bad "
+        "seek origin, failed transfer), the exception travelling outwards through the outer blocks; every view is "
+        "used again after its block (read / write / seek / tell / flush / address / slice) and closed views are "
+        "re-entered; the oracle judges the exit (the view must now be closed) and every later call on that view as "
+        "a call on a closed view (keys dead-view-operates / dead-view-sliced); 5% of reads/writes elsewhere also run "
+        "with TruncationWarning as an error. A history is "
         "non-trivial when at least one read or write was truncated; distinct = distinct canonical JSON of the history")
 
 MARGIN = 16
@@ -91,14 +106,15 @@ BASES = [0, 1, 7, 0x60000000, 0x60000004, 0x61000003, 0x7ffffff0]
 
 # priority of the clause names returned by the Lean oracle -> finding key
 PRIORITY = [("confinement", "confinement"), ("confinement-memory", "confinement"),
-            ("dead", "dead-view-operates"), ("dead-sliced", "dead-view-sliced"), ("slice-range", "slice-range"), ("slice-effect", "slice-range"),
+            ("dead", "dead-view-operates"), ("not-closed", "dead-view-operates"), ("dead-sliced", "dead-view-sliced"), ("slice-range", "slice-range"), ("slice-effect", "slice-range"),
             ("seek-from-end-sign", "seek-from-end-sign"), ("failed-free", "failed-transfer"),
             ("file-transfer", "bounded-file"), ("file-result", "bounded-file"), ("file-warning", "bounded-file"),
             ("file-position", "bounded-file"), ("file-content", "bounded-file")]
 
 WHAT = {
     "confinement": "a view issued a controller access outside its own range (or changed memory outside it)",
-    "dead-view-operates": "an operation on a closed view / freed allocation did not fail with OSError",
+    "dead-view-operates": "an operation on a closed view / freed allocation did not fail with OSError (a view is "
+                          "closed by close() and by leaving its with-block, normally or through an exception)",
     "dead-view-sliced": "slicing a closed view / a view of a freed allocation did not fail (it returned a fresh open view)",
     "slice-range": "a slice does not cover exactly the clipped sub-range it names",
     "seek-from-end-sign": "seek(n, 2) moves to len-n; the documented (file) semantics is len+n",
@@ -377,6 +393,9 @@ class _Boom(Exception):
     """raised by the harness inside a with-block"""
 
 
+_SELF = object()     # `__enter__` returned the view itself
+
+
 def call(view, op):
     k = op["k"]
     nk = op.get("nk")
@@ -433,11 +452,29 @@ def call(view, op):
         return view.close()
     if k == "free":
         return view.free()
+    if k == "enter":
+        r = view.__enter__()
+        return _SELF if r is view else r
+    if k == "exit":
+        # the with-statement protocol: __exit__(None, None, None) or __exit__(type, value, traceback)
+        exc = (None, None, None)
+        if op["raised"]:
+            exc = op.get("_exc")
+            if exc is None:
+                try:
+                    raise _Boom()
+                except _Boom:
+                    import sys
+                    exc = sys.exc_info()
+        if view.__exit__(*exc):
+            _SIDE_TAGS.append("with-exit:swallows-the-exception")
+        return None
     raise ValueError(k)
 
 
 def run_impl(case):
     """Run the history on the real code; returns dict(outs (per op), objs (per view owner))."""
+    import sys
     from harness import common
     if case.get("reload"):
         # a session (several owners used alternately) starts from a freshly loaded module: module- and
@@ -488,14 +525,22 @@ def run_impl(case):
         nv = None
         # fault injection: the controller's read / write / sdram_free raises during this call (if it is reached)
         mc.fault = (op["fault"], op.get("exc", "timeout")) if op.get("fault") is not None else None
+        strict_hit = False
+        if op["k"] == "exit" and op.get("how") == "own":
+            op = dict(op, _exc=ob.get("last_exc"))      # the block is left by the view's own exception
         with warnings.catch_warnings(record=True) as wl:
             warnings.simplefilter("always")
+            if op.get("werr"):
+                # the caller turned truncation warnings into exceptions (as the docstrings suggest)
+                warnings.simplefilter("error", TruncationWarning)
             try:
                 # a call takes microseconds (the model is total): still running after 2 s of CPU time =
                 # it did not return (0.3 s after three such calls)
                 with common.cpu_limit(2 if _HANGS[0] < 3 else 0.3):
                     r = call(v, op)
-                if isinstance(r, SlicedMemoryIO):
+                if r is _SELF:
+                    ret = {"view": op["v"]}
+                elif isinstance(r, SlicedMemoryIO):
                     views.append(r)
                     nv = snap(r)
                     ret = {"view": len(views) - 1}
@@ -504,16 +549,22 @@ def run_impl(case):
             except common.ImplHang as e:
                 _HANGS[0] += 1
                 ret = {"err": "DidNotReturn", "where": str(e)}
+            except TruncationWarning:
+                ret, strict_hit = {"err": "TruncationWarning"}, True
+                ob["last_exc"] = sys.exc_info()
             except SCPError:
                 ret = {"err": "TransferError"}      # the controller's documented transfer errors
+                ob["last_exc"] = sys.exc_info()
             except (OSError, ValueError, AttributeError) as e:
                 ret = {"err": type(e).__name__}
+                ob["last_exc"] = sys.exc_info()
             except (ImportError, SyntaxError):
                 raise
             except Exception as e:  # any other exception is an observation, not a harness fault
                 ret = {"err": "Other:" + type(e).__name__}
         mc.fault = None
-        warn = any(issubclass(w.category, TruncationWarning) for w in wl)
+        warn = strict_hit or any(issubclass(w.category, TruncationWarning) for w in wl)
+        op = {k: v for k, v in op.items() if k != "_exc"}
         out = {"ret": ret, "warn": warn, "acc": mc.log[0] if mc.log else None}
         if len(mc.log) > 1:
             out["extra_acc"] = [list(a) for a in mc.log[1:]]
@@ -719,6 +770,12 @@ def process(ctx, cases):
                 ctx.tag("buffer-edited-after-write")
             if op.get("big"):
                 ctx.tag("big-int-argument")
+            if op.get("werr"):
+                ctx.tag("warnings-as-errors")
+            if op["k"] == "exit":
+                ctx.tag("with-exit:" + (op.get("how") or "normal"))
+            if op["k"] == "close" and op.get("with"):
+                ctx.tag("with-block:" + ("exception" if op["with"] == "exc" else "normal"))
         for s in specs(c):
             ctx.tag("mode:" + s["mode"])
         for f in ("stream", "twin"):
@@ -884,9 +941,69 @@ def gen_twin(rng, spec, L):
     return t, L2, what
 
 
+def gen_block(rng, G, o, pending):
+    """with-blocks of a view (and, nested inside, of a slice of it, up to three levels), each left
+    normally, by the caller's exception or by an exception of the view's own operation; then the
+    views are used again (a closed view may also be re-entered).  First op returned, rest queued."""
+    lens, depth, closed = G["lens"], G["depth"], G["closed"]
+    v = rng.randrange(len(lens))
+    seq, chain = [], []
+    for level in range(rng.choice([1, 1, 2, 3])):
+        seq.append({"k": "enter", "v": v})
+        chain.append(v)
+        for _ in range(rng.randint(0, 2)):
+            seq.append(rng.choice([{"k": "read", "v": v, "n": rng.randint(0, 3)}, {"k": "tell", "v": v},
+                                   {"k": "write", "v": v, "d": [rng.randrange(256)] * rng.randint(0, 3)},
+                                   {"k": "seek", "v": v, "n": rng.randint(-1, lens[v] + 1), "w": 0}]))
+        if level < 2 and depth[v] < 4:
+            seq.append({"k": "slice", "v": v, "a": rng.choice([None, 0, 1]), "b": rng.choice([None, -1]), "s": None})
+            if closed[v] or G["freed"]:
+                break
+            lo, hi, _ = slice(seq[-1]["a"], seq[-1]["b"]).indices(lens[v])
+            lens.append(max(0, hi - lo))
+            depth.append(depth[v] + 1)
+            closed.append(False)
+            v = len(lens) - 1
+        else:
+            break
+    raised = False
+    for v in reversed(chain):
+        how = None
+        if not raised:
+            h = rng.random()
+            if h < 0.3:
+                raised, how = True, "boom"
+            elif h < 0.6:
+                # the view's own operation raises inside the block
+                raised, how = True, "own"
+                seq.append(rng.choice([
+                    {"k": "read", "v": v, "n": lens[v] + 3, "werr": True},
+                    {"k": "write", "v": v, "d": [1] * (lens[v] + 2), "werr": True},
+                    {"k": "seek", "v": v, "n": 0, "w": 5},
+                    {"k": "read", "v": v, "n": 2, "fault": 0, "exc": "timeout"}]))
+        else:
+            how = "boom" if rng.random() < 0.8 else None     # the exception travels outwards (or was handled)
+            raised = how is not None
+        seq.append({"k": "exit", "v": v, "raised": raised, "how": how} if raised else {"k": "exit", "v": v, "raised": False})
+        if not G["freed"]:
+            closed[v] = True
+        # ... and the view is used after its block
+        seq.append(rng.choice([{"k": "read", "v": v, "n": 1}, {"k": "tell", "v": v}, {"k": "write", "v": v, "d": [5]},
+                               {"k": "seek", "v": v, "n": 0, "w": 0}, {"k": "flush", "v": v}, {"k": "address", "v": v},
+                               {"k": "slice", "v": v, "a": None, "b": None, "s": None}, {"k": "enter", "v": v}]))
+        if seq[-1]["k"] == "enter":
+            seq += [{"k": "read", "v": v, "n": 1}, {"k": "exit", "v": v, "raised": False}]
+    for p in seq:
+        p["o"] = o
+    pending += seq[1:]
+    return seq[0]
+
+
 def gen_op(rng, G, o, pal, pending, small_io=False):
     """one call on one view of owner `o` (generator state `G`); follow-ups go to `pending`"""
     lens, depth, closed = G["lens"], G["depth"], G["closed"]
+    if rng.random() < 0.06 and not small_io:
+        return gen_block(rng, G, o, pending)
     v = rng.randrange(len(lens)) if rng.random() < 0.7 else len(lens) - 1
     Lv = lens[v]
     big = pal["big"] and rng.random() < 0.3
@@ -970,6 +1087,8 @@ def gen_op(rng, G, o, pal, pending, small_io=False):
         nk = rng.choice(pal["nk"])
         if nk != "int":
             op["nk"] = nk
+    if op["k"] in ("read", "write") and rng.random() < 0.05:
+        op["werr"] = True       # the caller has turned TruncationWarning into an exception
     if op["k"] in ("read", "write") and rng.random() < 0.15:
         # fault injection: the controller raises during this call (if a transfer is made); a
         # failing write has stored `fault` bytes of what it was handed
@@ -1124,7 +1243,7 @@ EXH_ALPHABET = [
     {"k": "write", "d": [171]}, {"k": "write", "d": [1, 2, 3, 4]},
     {"k": "read", "n": 2, "fault": 0}, {"k": "write", "d": [7, 8], "fault": 1},
     {"k": "slice", "a": 1, "b": None, "s": None}, {"k": "slice", "a": -2, "b": -1, "s": None},
-    {"k": "close"}, {"k": "free"}, {"k": "free", "fault": 0},
+    {"k": "close"}, {"k": "close", "with": "exc"}, {"k": "free"}, {"k": "free", "fault": 0},
 ]
 
 
